@@ -90,7 +90,7 @@ class ExpObj:
         self.op = op
         self.kind = kind
         self.set_type = TYPES[kind]['set_type']
-        self.set_name = op.get('set')
+        self.set_name = op.get('set') or None       # an empty set name is written as 'no name': the unnamed set
         self.name = op['name']
         self.attrs = {}
         for k, aj in (op.get('attrs') or {}).items():
